@@ -60,8 +60,10 @@ Open(tok, r) == IF r # <<>> /\ Head(r) \in {"(", "(("} THEN <<tok, " ">> ELSE <<
 
 ------------------------------------------------------------------------
 \* Arithmetic expressions
+PE(name) == [k |-> "ParamExp", Param |-> Lit(name)]
+PEShort(name) == PE(name) @@ ("Short" :> TRUE)
 BinA(op, a, b) == [k |-> "BinaryArithm", Op |-> op, X |-> a, Y |-> b]
-NArith == 13
+NArith == 15
 RECURSIVE DArith(_, _)
 DArith(p, d) ==
   LET c == IF d = 0 THEN Ch(p) % 3 ELSE Ch(p)
@@ -88,6 +90,13 @@ DArith(p, d) ==
     [] c = 10 -> LET a == DArith(p + 1, d - 1) IN
          Res(a.pos, Need2(nd, a.need), L1(LAMBDA u : BinA("=", LW("i"), u), a),
              <<"i", "=">> \o a.r, a.v, a.x)
+    [] c = 13 ->   \* ($x) : redundant parentheses directly around a simple parameter (two Simplify rules meet here)
+         Res(p + 1, nd, Tri([k |-> "ParenArithm", X |-> W(<<PEShort("x")>>)]), <<"(", "$x", ")">>, All, None)
+    [] c = 14 ->   \* (${x}) + 1
+         Res(p + 1, nd, [t |-> BinA("+", [k |-> "ParenArithm", X |-> W(<<PE("x")>>)], LW("1")),
+                         n |-> BinA("+", [k |-> "ParenArithm", X |-> W(<<PE("x")>>)], LW("1")),
+                         m |-> BinA("+", [k |-> "ParenArithm", X |-> W(<<PEShort("x")>>)], LW("1"))],
+             <<"(", "${x}", ")", "+", "1">>, All, None)
     [] c = 12 ->   \* i - -1 : a binary minus followed by a unary minus must not be glued into --
          Res(p + 1, nd, Tri(BinA("-", LW("i"), [k |-> "UnaryArithm", Op |-> "-", X |-> LW("1")])),
              <<"i", " ", "-", " ", "-", "1">>, All, None)
@@ -100,9 +109,7 @@ DArith(p, d) ==
 \* Words.  DWord needs statements (command substitution) and DStmts needs words.
 RECURSIVE DWord(_, _), DStmts(_, _, _), DStmt(_, _), DCmd(_, _)
 
-PE(name) == [k |-> "ParamExp", Param |-> Lit(name)]
-PEShort(name) == PE(name) @@ ("Short" :> TRUE)
-NWord == 32
+NWord == 34
 
 \* Parameter expansion operators with a word argument: <<spelling, valid langs, must-reject langs>>
 ExpOps == << <<":-", All, None>>, <<"-", All, None>>, <<":=", All, None>>, <<"=", All, None>>,
@@ -190,6 +197,10 @@ DWord(p, d) ==
     [] c = 28 -> Res(p + 1, nd, Tri(W(<<PE("x") @@ ("Exp" :> [k |-> "Expansion", Op |-> "@", Word |-> LW("Q")])>>)),
                      <<"${x@Q}">>, BashLike, {"posix"})
     [] c = 29 -> Res(p + 1, nd, Tri(W(<<PE("x") @@ ("Excl" :> TRUE) @@ ("Names" :> "*")>>)), <<"${!x*}">>, BashLike, {"posix"})
+    [] c = 32 ->  \* ${x/} : a replacement with empty pattern and empty replacement (an all-zero Replace node)
+         Res(p + 1, nd, Tri(W(<<PE("x") @@ ("Repl" :> [k |-> "Replace"])>>)), <<"${x/}">>, Ksh, {"posix"})
+    [] c = 33 ->  \* zsh subscript flags spanning a line: tree left unspecified (no verdict on it), only parsed/cut
+         Res(p + 1, nd, Tri(LW("unspecified")), <<"$x[(r\n)1]">>, {}, {})
     [] c = 30 ->  \* ${x}1 : a digit would extend the name too, so Minify must keep the braces
          Res(p + 1, nd, Tri(W(<<PE("x"), Lit("1")>>)), <<"${x}", "1">>, All, None)
     [] c = 31 ->  \* "`echo \"x\" y`" : backquotes inside double quotes, with escaped double quotes inside
@@ -247,7 +258,10 @@ Redirs == <<
   [t |-> Redir("&>", LW("f")), r |-> <<"&>", "f">>, v |-> BashLike, x |-> None],
   [t |-> Redir(">|", LW("f")), r |-> <<">|", "f">>, v |-> All, x |-> None],
   [t |-> Redir("<>", LW("f")), r |-> <<"<>", "f">>, v |-> All, x |-> None],
-  [t |-> Redir(">", LW("f")) @@ ("N" :> Lit("{fd}")), r |-> <<"{fd}", ">", "f">>, v |-> BashLike, x |-> None] >>
+  [t |-> Redir(">", LW("f")) @@ ("N" :> Lit("{fd}")), r |-> <<"{fd}", ">", "f">>, v |-> BashLike, x |-> None],
+  \* a here-document whose body holds a command substitution that starts with a comment
+  [t |-> Redir("<<", LW("EOF")) @@ ("Hdoc" :> W(<<CmdSubstNode(<<[k |-> "Stmt", Cmd |-> [k |-> "CallExpr", Args |-> <<LW("inner")>>]]>>, FALSE), Lit("\n")>>)),
+     r |-> <<"<<", "EOF", "<HDOC>", "$( # hc\ninner)", "EOF">>, v |-> All, x |-> None] >>
 
 ------------------------------------------------------------------------
 \* Commands
@@ -455,7 +469,7 @@ DCmd(p, d) ==
 
 ------------------------------------------------------------------------
 \* Statements: a command plus a modifier (negation, one redirection, both).
-NMod == 3 + Len(Redirs)
+NMod == 4 + Len(Redirs)      \* none, negated, negated+redirect, each redirection, here-document + another redirection
 IsBinary(t) == t.k = "BinaryCmd"
 NoModifier(t) == t.k \in {"BinaryCmd", "FuncDecl", "TimeClause", "CoprocClause"}
 
@@ -475,6 +489,13 @@ DStmt(p, d) ==
            L1(LAMBDA u : StmtOf(u) @@ ("Negated" :> TRUE) @@ ("Redirs" :> <<Redirs[1].t>>), c),
            <<"!", "<SP>">> \o c.r \o <<"<SP>">> \o Redirs[1].r,
            IF c.t.k = "LetClause" THEN {} ELSE c.v, IF c.t.k = "LetClause" THEN {} ELSE c.x)
+  ELSE IF mo = NMod - 1 THEN   \* cmd <<EOF >f : a here-document operator followed by another redirection
+       LET h == Redirs[5]
+           o == Redirs[1]
+           unspec == c.t.k = "LetClause" IN
+       Res(c.pos + 1, Need2(c.need, nd), L1(LAMBDA u : StmtOf(u) @@ ("Redirs" :> <<h.t, o.t>>), c),
+           c.r \o <<"<SP>">> \o SubSeq(h.r, 1, 2) \o <<"<SP>">> \o o.r \o SubSeq(h.r, 3, Len(h.r)),
+           IF unspec THEN {} ELSE c.v, IF unspec THEN {} ELSE c.x)
   ELSE LET rd == Redirs[mo - 2]
            \* `let` takes the rest of the line as arithmetic, so `let e >f` is left unspecified
            unspec == c.t.k = "LetClause" IN
@@ -552,5 +573,8 @@ Layouts == <<
   [name |-> "tabs",     sep |-> "\n",    sp |-> "\t",    bg |-> " ",  comment |-> FALSE, final |-> "\n"],
   [name |-> "bsnl",     sep |-> "\n",    sp |-> " \\\n", bg |-> "\n", comment |-> FALSE, final |-> "\n"],
   [name |-> "comments", sep |-> "\n",    sp |-> " ",     bg |-> "\n", comment |-> TRUE,  final |-> "\n"],
-  [name |-> "crlf",     sep |-> "\r\n",  sp |-> " ",     bg |-> "\r\n", comment |-> FALSE, final |-> "\r\n"] >>
+  \* like "comments", but every comment stands on a line of its own after the separator
+  [name |-> "owncomments", sep |-> "\n", sp |-> " ",     bg |-> "\n", comment |-> TRUE,  final |-> "\n"],
+  [name |-> "crlf",     sep |-> "\r\n",  sp |-> " ",     bg |-> "\r\n", comment |-> FALSE, final |-> "\r\n"],
+  [name |-> "bscrlf",   sep |-> "\r\n",  sp |-> " \\\r\n", bg |-> "\r\n", comment |-> FALSE, final |-> "\r\n"] >>
 =========================================================================
